@@ -428,7 +428,10 @@ def run(pid, tier, seed):
 
         # 2. code -> spec: random histories
         t0 = time.time()
-        stale = stale_enabled()
+        # histories ending with close() through the handle of a model closed before (the
+        # defect they exposed is repaired -- fix: 9b6a51e; they stay as a tripwire: the label
+        # KF:C19.StaleHandleCloseDropsNamesake is a VIOLATION unless listed as known)
+        stale = os.environ.get("VERIF_C19_STALE", "1") != "0"
         jobs = [{"files": files, "seed": (seed * 100003 + i) % (2 ** 31), "origin": "random",
                  "nops": size["nops"], "stale_final": stale and i % 3 == 0}
                 for i in range(size["traces"])]
@@ -504,7 +507,7 @@ def run(pid, tier, seed):
         "trace_production_s": round(t_prod, 1),
         "exhaustive": False,
     }
-    if stale:
+    if stale_enabled():
         # the split-off configuration that exposes the known finding at design level: it must
         # produce exactly that counterexample (any other invariant failing there is a violation)
         k = run_mc(["MC_MxRegistry_kf.cfg"], 900)[0]
